@@ -102,11 +102,11 @@ def csr_roles(m):
                 nm = _len_of_acc(simp(f.value))
                 if nm is not None and nm != f.target:
                     lens.setdefault(nm, []).append(f)
-        cands = [nm for nm in lens if any(g.kind == "append" and g.target == nm and g.loops for g in fl.facts)]
+        cands = [nm for nm in lens if any(_grows(g) and g.target == nm and g.loops for g in fl.facts)]
         if len(cands) == 1:
             measured = cands[0]
             roles["rows"] = lens[measured]
-            sites = {tuple(l.id for l in g.loops) for g in fl.facts if g.kind == "append" and g.target == measured}
+            sites = {tuple(l.id for l in g.loops) for g in fl.facts if _grows(g) and g.target == measured}
             if len(sites) == 1:
                 inc_loops = next(iter(sites))
     rows_names = {f.target for f in roles.get("rows", [])}
@@ -119,7 +119,30 @@ def csr_roles(m):
         if f.kind == "append" and f.target not in rows_names and f.loops and inc_loops is not None and tuple(l.id for l in f.loops) == inc_loops:
             v = simp(f.value)
             roles.setdefault("cols" if is_position(v) else "vals", []).append(f)
+        elif _grows(f) and f.kind == "mutate" and f.target not in rows_names and f.loops and inc_loops is not None and tuple(l.id for l in f.loops) == inc_loops:
+            # a whole row's selection added at once: `cols.extend(pos for pos, e in enumerate(row) if ..)` / `vals.extend(e for ..)`
+            mm = _as_selection(f.value)
+            if mm is not None:
+                roles.setdefault("cols" if mm[1] == ("item", mm[0], 0) else "vals", []).append(f)
     return counter, roles, measured
+
+
+def _grows(f) -> bool:
+    return f.kind == "append" or (f.kind == "mutate" and f.op == "extend" and f.value is not None)
+
+
+def _as_selection(v):
+    """`[g(t) for t in enumerate(S) if c(t)]` (nested comprehensions composed) -> (bv, body, S, ifs), else None"""
+    from ..valueflow import as_map
+    v = simp(v)
+    mm = as_map(v) if v[0] == "comp" else None
+    if mm is None:
+        return None
+    bv, body, base, ifs = mm
+    base = simp(base)
+    if not (base[0] == "call" and base[1] == ("global", "enumerate") and len(base[2]) == 1 and not base[3]):
+        return None
+    return bv, simp(body), simp(base[2][0]), tuple(simp(c) for c in ifs)
 
 
 def contains_carried(v, name):
@@ -334,6 +357,11 @@ def _r1(ctx, m):
         ctx.unrec("R1", "csr-sites", W, f"expected one cols.append, one vals.append and one increment; found {len(cols)}, {len(vals)}, {len(incs)}")
         return
     c, v = cols[0], vals[0]
+    if c.kind == "mutate" and v.kind == "mutate" and counter is None:
+        return _r1_rowwise(ctx, m, rows, c, v, names, measured)
+    if c.kind == "mutate" or v.kind == "mutate":
+        ctx.unrec("R1", "csr-construction", W, "one CSR list grows by append and another by extend: the construction is not understood")
+        return
     together = [c, v] + ([inc] if inc is not None else [])
     scan = v.loops
     # the scan: `for row in range(n): for col in range(n): entry = table[row*n + col]`  or
@@ -523,6 +551,103 @@ def _atoms(v, leaves, m):
                 yield from _atoms(x, leaves, m)
         return
     yield v
+
+
+def _r1_rowwise(ctx, m, rows, c, v, names, measured):
+    """R1 for the row-wise spelling of the scan
+
+        for row in range(n):  [rows.append(len(vals))]
+            cols.extend(pos for pos, e in enumerate(T[row*n:(row+1)*n]) if e != sentinel)
+            vals.extend(e   for pos, e in enumerate(T[row*n:(row+1)*n]) if e != sentinel)
+            [rows.append(len(vals))]
+
+    -- the same obligations as the element-wise scan: every row once in ascending order, the columns of a row in ascending order and
+    complete (the positions of its slice), both lists selected by the one test `entry != sentinel`, the row pointer before the row
+    (plus a final one) or after it (the list starting as [0])."""
+    fl = m.flow
+    W = (FILE, m.func.lineno)
+    own = measured in names.get("vals", []) + names.get("cols", [])
+    ctx.check(own, "R1", "nnz-by-length", W, f"the number of stored entries is read as len({measured}), the list that receives one element per stored entry",
+              found=f"len({measured}); value list {names.get('vals')}, column list {names.get('cols')}")
+    if len(v.loops) != 1:
+        ctx.unrec("R1", "csr-construction", W, "the row-wise CSR builder is not one loop over the rows; cannot decide well-formedness")
+        return
+    rowloop = v.loops[0]
+    origin = _row_origin(m, rowloop)
+    sc, sv = _as_selection(c.value), _as_selection(v.value)
+    if origin is None or sc is None or sv is None:
+        ctx.unrec("R1", "csr-construction", W, "the row-wise CSR builder's row loop / selections are not understood")
+        return
+    rowstart, complete, found_rows = origin
+    ctx.check(complete, "R1", "row-loop", (FILE, rowloop.line), f"the row loop `for {rowloop.target} in ..` visits every row 0 .. n_eqns-1 once, ascending",
+              expected="range(n_eqns)", found=found_rows[:100]) if (complete or all(m._known_arith(a_) for x in walk_(simp(rowloop.iter)) if isinstance(x, tuple) and len(x) == 4 and x[0] == "call"
+                                                                 and x[1] == ("global", "range") for a_ in x[2])) else \
+        ctx.unrec("R1", "row-loop", (FILE, rowloop.line), f"the bounds of the row loop are not understood: {found_rows[:100]}")
+    # the slice both selections enumerate
+    ok_slice = True
+    for nm_, sel in (("cols", sc), ("vals", sv)):
+        seq = sel[2]
+        good = seq[0] == "sub" and seq[1] == m.JAC and seq[2][0] == "slice"
+        if good:
+            sl = seq[2]
+            lo = {} if sl[1] == ("const", None) else _npoly(m, sl[1])
+            good = sl[3] == ("const", None) and sl[2] != ("const", None) and lo == _npoly(m, rowstart) and _npoly(m, sl[2]) == _npoly(m, ("binop", "Add", rowstart, _NEQ))
+            ctx.check(bool(good), "R1", f"col-loop:{nm_}", (FILE, c.line if nm_ == "cols" else v.line),
+                      "the selection enumerates the row's slice jacrhs[row*n_eqns : (row+1)*n_eqns] (ascending, complete; position in the slice = column)",
+                      expected="enumerate(jacrhs[row*n_eqns : (row+1)*n_eqns])", found=show(seq)[:120])
+        else:
+            ok_slice = False
+            ctx.unrec("R1", f"col-loop:{nm_}", (FILE, c.line), f"the sequence the selection enumerates is not a slice of the Jacobian table: {show(seq)[:100]}")
+    # one test, entry != sentinel, for both
+    z = ("bv", "_", 0)
+    tests = [tuple(subst_(t, {sel[0]: z}) for t in sel[3]) for sel in (sc, sv)]
+    guard_ok = False
+    if tests[0] == tests[1] and len(tests[0]) == 1:
+        b = match(("cmp", (V("op"),), (V("e"), V("lit"))), tests[0][0])
+        if b and b["op"] == "NotEq" and b["lit"][0] == "const" and b["e"] == ("item", z, 1):
+            guard_ok = True
+            ctx.stats["csr_sentinel"] = b["lit"][1]
+    understood = all(len(t) <= 1 and all(match(("cmp", (V("op"),), (("item", z, 1), V("lit"))), x) for x in t) for t in tests)
+    if guard_ok or understood:
+        ctx.check(guard_ok, "R1", "single-guard", (FILE, c.line), "columns and values are selected by the one test `entry != sentinel`",
+                  expected="... for pos, e in enumerate(row) if e != '0.0'", found="; ".join(" & ".join(show(x)[:60] for x in t) or "<unfiltered>" for t in tests))
+    else:
+        ctx.unrec("R1", "single-guard", (FILE, c.line), "the tests selecting columns / values are not understood: " + "; ".join(" & ".join(show(x)[:60] for x in t) for t in tests))
+    if guard_ok and ok_slice:
+        ctx.ok("R1", "entry-index", (FILE, c.line), "the tested entry is the element the selection enumerates: jacrhs[row*n_eqns + col]")
+        ctx.check(sc[1] == ("item", sc[0], 0), "R1", "cols-value", (FILE, c.line), "the column list receives the position in the row's slice", found=show(sc[1])[:80])
+        body = sv[1]
+        if body[0] == "fstr" and len(body[1]) == 1 and body[1][0][0] == "fmt" and body[1][0][2] is None:
+            body = body[1][0][1]
+        ctx.check(body == ("item", sv[0], 1), "R1", "vals-value", (FILE, v.line), "the value list receives that same entry, unchanged", found=show(sv[1])[:80])
+    # row pointers
+    inrow = [f for f in rows if tuple(l.id for l in f.loops) == (rowloop.id,)]
+    tail = [f for f in rows if not f.loops]
+    others = [f for f in rows if f not in inrow and f not in tail]
+    first_sel, last_sel = min(c.seq, v.seq), max(c.seq, v.seq)
+    last_loop_fact = max(f.seq for f in fl.facts if rowloop in f.loops)
+    rows_init = [simp(f.value) for f in fl.facts if f.kind == "init" and f.target in names["rows"]]
+    trailing = rows_init == [("list", (("const", 0),))] and len(inrow) == 1 and not tail and not others and not inrow[0].guards and inrow[0].seq > last_sel
+    ok = trailing or (len(inrow) == 1 and not inrow[0].guards and inrow[0].seq < first_sel and not others)
+    ctx.check(ok, "R1", "rowptr-before-columns", (FILE, inrow[0].line if inrow else rowloop.line),
+              "each row appends the running count to the row pointers before its columns are added (or after them, the list starting as [0]), unconditionally",
+              found=f"{len(inrow)} in-row appends, {len(others)} elsewhere, initial value {[show(x) for x in rows_init]}")
+    ok = trailing or (len(tail) == 1 and not tail[0].guards and tail[0].seq > last_loop_fact and _evaluated_after(fl, simp(tail[0].value), tail[0].seq, last_loop_fact))
+    ctx.check(ok, "R1", "rowptr-final", (FILE, tail[0].line if tail else rowloop.line),
+              "the row pointers end at the non-zero count (a final append after the loop, or the last row's own append)", found=f"{len(tail)} appends after the loop")
+    allnames = set(sum(names.values(), []))
+    extra = [f for f in fl.facts if f.target in allnames and f.kind not in ("init", "append") and f is not c and f is not v]
+    ctx.check(not extra, "R1", "no-other-writer", (FILE, extra[0].line if extra else m.func.lineno),
+              "the CSR lists are only initialised and grown by the statements above", found="; ".join(f"{f.kind}@{f.line}" for f in extra))
+    for nm in sorted(allnames):
+        ini = [f for f in fl.facts if f.kind == "init" and f.target == nm]
+        empty = ("list", (("const", 0),)) if (trailing and nm in names["rows"]) else ("list", ())
+        good = len(ini) == 1 and simp(ini[0].value) == empty and not ini[0].loops
+        if good or len(ini) != 1 or ini[0].loops or simp(ini[0].value)[0] == "list":
+            ctx.check(good, "R1", f"init:{nm}", (FILE, ini[0].line if ini else m.func.lineno),
+                      f"`{nm}` starts as the empty list, once" if empty == ("list", ()) else f"`{nm}` starts as [0], once", found="; ".join(show(f.value) for f in ini))
+        else:
+            ctx.unrec("R1", f"init:{nm}", (FILE, ini[0].line), f"the initial value of `{nm}` is not read as a list display: {show(simp(ini[0].value))[:80]}")
 
 
 def _evaluated_after(fl, v, use_seq, after_seq):
@@ -1098,6 +1223,10 @@ def _split_args(code, i):
 
 T = FILE
 MUTANTS = [
+    {"name": "rowwise-extend-slice-one-column-short", "file": T, "old": '        nnz = 0\n\n        for row in range(n_eqns):\n            spjacrptr.append(nnz)\n            for col in range(n_eqns):\n                elem = jacrhs[row * n_eqns + col]\n                if elem != "0.0":\n                    spjaccval.append(col)\n                    spjacdata.append(f"{elem}")\n                    nnz += 1\n        spjacrptr.append(nnz)\n',
+     "new": '        for row in range(n_eqns):\n            spjacrptr.append(len(spjacdata))\n            rowelems = jacrhs[row * n_eqns : (row + 1) * n_eqns - 1]\n            spjaccval.extend(col for col, elem in enumerate(rowelems) if elem != "0.0")\n            spjacdata.extend(elem for _, elem in enumerate(rowelems) if elem != "0.0")\n        nnz = len(spjacdata)\n        spjacrptr.append(nnz)\n', "rules": ["R1"]},
+    {"name": "rowwise-extend-values-selected-by-another-sentinel", "file": T, "old": '        nnz = 0\n\n        for row in range(n_eqns):\n            spjacrptr.append(nnz)\n            for col in range(n_eqns):\n                elem = jacrhs[row * n_eqns + col]\n                if elem != "0.0":\n                    spjaccval.append(col)\n                    spjacdata.append(f"{elem}")\n                    nnz += 1\n        spjacrptr.append(nnz)\n',
+     "new": '        for row in range(n_eqns):\n            spjacrptr.append(len(spjacdata))\n            rowelems = jacrhs[row * n_eqns : (row + 1) * n_eqns]\n            spjaccval.extend(col for col, elem in enumerate(rowelems) if elem != "0.0")\n            spjacdata.extend(elem for _, elem in enumerate(rowelems) if elem != "0")\n        nnz = len(spjacdata)\n        spjacrptr.append(nnz)\n', "rules": ["R1"]},
     {"name": "csr-scan-over-recorded-columns-thermal-writers-not-recorded", "edits": [
         {"file": T, "old": '        jacrhs = ["0.0"] * n_eqns * n_eqns\n', "new": '        jacrhs = ["0.0"] * n_eqns * n_eqns\n        usedcols = set()\n'},
         {"file": T, "old": "            pspecidx = [species.index(p) for p in react.products]\n", "new": "            pspecidx = [species.index(p) for p in react.products]\n            usedcols.update(rspecidx)\n"},
@@ -1140,6 +1269,8 @@ MUTANTS = [
     {"name": "nequations-macro", "file": MACROS, "old": "#define NEQUATIONS (NSPECIES + THERMAL)", "new": "#define NEQUATIONS (NSPECIES)", "rules": ["R4"]},
 ]
 BENIGN = [
+    {"name": "csr-rowwise-extend-of-filtered-selections", "file": T, "old": '        nnz = 0\n\n        for row in range(n_eqns):\n            spjacrptr.append(nnz)\n            for col in range(n_eqns):\n                elem = jacrhs[row * n_eqns + col]\n                if elem != "0.0":\n                    spjaccval.append(col)\n                    spjacdata.append(f"{elem}")\n                    nnz += 1\n        spjacrptr.append(nnz)\n',
+     "new": '        for row in range(n_eqns):\n            spjacrptr.append(len(spjacdata))\n            rowelems = jacrhs[row * n_eqns : (row + 1) * n_eqns]\n            spjaccval.extend(col for col, elem in enumerate(rowelems) if elem != "0.0")\n            spjacdata.extend(elem for _, elem in enumerate(rowelems) if elem != "0.0")\n        nnz = len(spjacdata)\n        spjacrptr.append(nnz)\n'},
     {"name": "initjac-colvals-printed-by-a-loop-with-separator", "file": JAC, "old": "        {{ ode.jac.cols | map('string') | join(\", \") | stmwrap(80, 8) }}\n",
      "new": "        {% for c in ode.jac.cols %}{{ c }}{{ \", \" if not loop.last else \"\" }}{% endfor %}\n"},
     {"name": "rowptr-starts-at-zero-appended-after-each-row", "edits": [
